@@ -76,3 +76,22 @@ Theorem C06_layouts : forall api ver resp spec,
   exists impl, impl_layout api ver resp = Some impl /\
     (compat spec impl = true \/ (forall p, In p (divs spec impl) -> is_known api ver resp p = true)).
 Proof. exact layouts_compat_or_known. Qed.
+
+(* compat_sound: layouts that differ from the wire format's type only in field names and
+   single-field struct wrappers decode its encodings to the same values *)
+Theorem compat_sound : forall s i, KafkaCompatProofs.sim s i -> plain i = true -> arrays_ok i = true ->
+  forall v, wf s v ->
+  exists v', wf i v' /\ KafkaCompatProofs.uv i v' = KafkaCompatProofs.uv s v /\ encode i v' = encode s v /\
+    forall d r, derr d = None -> inp d = encode s v ++ r -> blen (encode s v) <= remain d ->
+    exists d', decode i d = Ok (norm i v', d') /\ consumed d d' (encode s v) r.
+Proof. exact KafkaCompatProofs.compat_sound. Qed.
+
+(* ... which is the case for every compatible entry of the regenerated grid: there the dissector
+   reports exactly the encoded values, for all values *)
+Theorem C06_compatible_exact : forall api ver resp spec impl,
+  In (api, ver, resp, spec) spec_grid -> impl_layout api ver resp = Some impl -> compat spec impl = true ->
+  forall v, wf spec v ->
+  exists v', wf impl v' /\ KafkaCompatProofs.uv impl v' = KafkaCompatProofs.uv spec v /\ encode impl v' = encode spec v /\
+    forall d r, derr d = None -> inp d = encode spec v ++ r -> blen (encode spec v) <= remain d ->
+    exists d', decode impl d = Ok (norm impl v', d') /\ consumed d d' (encode spec v) r.
+Proof. exact grid_exact. Qed.
